@@ -96,6 +96,11 @@ func runResize(rep *Report) {
 		p := engine.DefaultParams()
 		p.Reopen = 5
 		p.OnQuiesce = func(s *engine.Session) { s.CheckExtent() }
+		if i%3 == 2 {
+			// full files, overflow area enabled (as pq does), frees at the end of the data area:
+			// after a shrink the commit releases the end of the file
+			p.Overflow, p.KeepFill, p.FreeTop, p.FreePct, p.BigAlloc = 70, 95, 60, 30, 30
+		}
 		s := engine.NewSession(cfg)
 		if s.Open() == "ok" {
 			rounds := 4
